@@ -449,7 +449,39 @@ def astq_enclosing18(n):
     return enclosing_stmt(n)
 
 
+def check_crop_size(prog: Program, res: Result) -> None:
+    """The streaming centered-instance dataset re-crops the stored (unscaled, enlarged) crop to crop_hw * input_scale and then
+    pads to the stride, exactly like the in-memory / .npz dataset re-crops to crop_hw and pads.  The re-crop size is the
+    crop size SCALED - a size with an additive term (e.g. rounded up to the stride before cropping) shows more image
+    instead of zero padding and shifts every keypoint relative to the other frameworks."""
+    R = "C18-frame"
+    ci = prog.cls("sleap_nn.data.streaming_datasets:CenteredInstanceStreamingDataset")
+    init = ci.methods["__init__"]
+    res.touch(init)
+    sts = [s_ for s_ in walk_function(init.node) if isinstance(s_, ast.Assign) and norm(s_.targets[0]) == "self.crop_hw"]
+    res.ob(R, len(sts) >= 1, init.qualname, "re-crop size is stored", "CenteredInstanceStreamingDataset no longer stores self.crop_hw", init.where)
+    if sts:
+        last = max(sts, key=lambda s_: s_.lineno)
+        e = astq.expand_at(init.node, last.value, last, keep=["crop_hw"])
+        e = astq.expand(init.node, e, keep=["crop_hw"])
+        adds = [b for b in ast.walk(e) if isinstance(b, ast.BinOp) and isinstance(b.op, (ast.Add, ast.Sub))]
+        calls = [norm(c.func) for c in ast.walk(e) if isinstance(c, ast.Call) and norm(c.func) not in ("int", "round", "list", "tuple")]
+        scaled = "input_scale" in norm(e) and "crop_hw" in norm(e)
+        res.ob(R, scaled and not adds and not calls, init.qualname, "re-crop size = crop_hw * input_scale (element-wise)",
+               f"the streaming re-crop size is `{short(e, 80)}`" + (f" (additive term `{short(adds[0], 30)}`)" if adds else (f" (through {calls})" if calls else "")) +
+               ": not the configured crop size scaled by input_scale, so the streaming crop covers another region than the in-memory / .npz crop", f"{init.module.relpath}:{last.lineno}")
+    gi = ci.methods["__getitem__"]
+    res.touch(gi)
+    cr = [c for c, q in prog.calls_in(gi) if q == "kornia.geometry.transform.crop_and_resize"]
+    mk = [c for c, q in prog.calls_in(gi) if q == "sleap_nn.data.instance_cropping:make_centered_bboxes"]
+    ok = len(cr) == 1 and len(mk) == 1 and norm(astq.call_arg(cr[0], 2, "size")) == "self.crop_hw" and [norm(a) for a in mk[0].args[1:3]] == ["self.crop_hw[0]", "self.crop_hw[1]"]
+    res.ob(R, ok, gi.qualname, "box and output size of the re-crop are both self.crop_hw", "the streaming re-crop does not use self.crop_hw for both the box and the output size", gi.where)
+
+
 def check(prog: Program, res: Result) -> None:
+    from . import _edges
+    _edges.check_edge_order(prog, res, "C18-edges")
+    check_crop_size(prog, res)
     check_frame(prog, res)
     check_npz(prog, res)
     check_wiring(prog, res)
